@@ -501,6 +501,13 @@ func (fc *FnCtx) havocTarget(st *State, env *specEnv, a *AssignTarget) {
 	switch a.Kind {
 	case "everything":
 		fc.havocAll(st)
+	case "except":
+		for _, k := range fc.hvOrder {
+			if !exceptMatch(a.Name, k) {
+				h := fc.hv[k]
+				st.heap[k] = fc.sc.Fresh(h.name, h.sort)
+			}
+		}
 	case "ghost":
 		k := fc.ghostKey(a.Name)
 		st.heap[k] = fc.sc.Fresh(fc.hv[k].name, fc.hv[k].sort)
@@ -560,6 +567,15 @@ func (fc *FnCtx) havocTarget(st *State, env *specEnv, a *AssignTarget) {
 		fc.assume(st, app("<=", "0", nl))
 		st.heap[l] = fc.sc.Define(fc.hv[l].name, fc.hv[l].sort, app("store", fc.heapGet(st, l), mv.T, nl))
 	}
+}
+
+func exceptMatch(pats, key string) bool {
+	for _, p := range strings.Fields(pats) {
+		if strings.Contains(key, p) {
+			return true
+		}
+	}
+	return false
 }
 
 func (fc *FnCtx) assumeTypeInvLater(st *State, ty types.Type, v string) {
@@ -623,6 +639,12 @@ func (fc *FnCtx) calleeFrameKeys(c *ssa.CallCommon) (keys []string, all bool) {
 		switch a.Kind {
 		case "everything":
 			return nil, true
+		case "except":
+			for _, k := range fc.hvOrder {
+				if !exceptMatch(a.Name, k) {
+					keys = append(keys, k)
+				}
+			}
 		case "ghost":
 			keys = append(keys, fc.ghostKey(a.Name))
 		case "heapvar":
